@@ -19,6 +19,7 @@ import (
 	"errors"
 	"os"
 	"strings"
+	"sync/atomic"
 
 	"github.com/casbin/casbin/v2/model"
 	"github.com/casbin/casbin/v2/persist"
@@ -28,7 +29,17 @@ import (
 // from file or save policy to file and supports loading of filtered policies.
 type FilteredAdapter struct {
 	*Adapter
-	filtered bool
+	// filtered is accessed atomically: a synchronized enforcer reads the adapter under its read
+	// lock, so LoadPolicy (which writes the flag) can run on several goroutines at once
+	filtered int32
+}
+
+func (a *FilteredAdapter) setFiltered(filtered bool) {
+	var v int32
+	if filtered {
+		v = 1
+	}
+	atomic.StoreInt32(&a.filtered, v)
 }
 
 // Filter defines the filtering rules for a FilteredAdapter's policy. Empty values
@@ -46,7 +57,7 @@ type Filter struct {
 // NewFilteredAdapter is the constructor for FilteredAdapter.
 func NewFilteredAdapter(filePath string) *FilteredAdapter {
 	a := FilteredAdapter{}
-	a.filtered = true
+	a.setFiltered(true)
 	a.Adapter = NewAdapter(filePath)
 	return &a
 }
@@ -57,7 +68,7 @@ func (a *FilteredAdapter) LoadPolicy(model model.Model) error {
 	if err == nil {
 		// only a completed full load ends the filtered state: after a failed one the
 		// enforcer may still hold a partial view that must not be saved over the file
-		a.filtered = false
+		a.setFiltered(false)
 	}
 	return err
 }
@@ -69,7 +80,7 @@ func (a *FilteredAdapter) LoadFilteredPolicy(model model.Model, filter interface
 	}
 	// the caller has cleared (or is extending) its model for a filtered view: whether or not
 	// this load completes, what it holds must not be saved over the file until a full load succeeds
-	a.filtered = true
+	a.setFiltered(true)
 	if a.filePath == "" {
 		return errors.New("invalid file path, file path cannot be empty")
 	}
@@ -106,12 +117,12 @@ func (a *FilteredAdapter) loadFilteredPolicyFile(model model.Model, filter *Filt
 
 // IsFiltered returns true if the loaded policy has been filtered.
 func (a *FilteredAdapter) IsFiltered() bool {
-	return a.filtered
+	return atomic.LoadInt32(&a.filtered) != 0
 }
 
 // SavePolicy saves all policy rules to the storage.
 func (a *FilteredAdapter) SavePolicy(model model.Model) error {
-	if a.filtered {
+	if a.IsFiltered() {
 		return errors.New("cannot save a filtered policy")
 	}
 	return a.Adapter.SavePolicy(model)
